@@ -7,6 +7,8 @@ from specs import threefish as spec
 
 NW = {256: 4, 512: 8, 1024: 16}
 OUTS = {256: [32, 64, 7, 33, 100, 8], 512: [32, 64, 1, 65, 129, 16], 1024: [32, 64, 128, 31, 200, 257]}
+# output sizes needing more than 256 output blocks (block index no longer fits one byte): N -> size of the harness out buffer
+LONG = {256: (8225, 8256), 512: (16449, 16512), 1024: (32897, 33024)}
 
 
 def lens_for(bits, tier):
@@ -22,14 +24,14 @@ def digest_case(run, task):
     mod = module(config, run)
     fname = 'h_skein%d_%d' % (bits, N)
     msg = T.var('msg', 8 * L)
-    out0 = T.var('out0', 8 * 512)
-    args = [Buf('msg', L, init=msg, writable=False), Sc('len', 64, L), Buf('out', 512, init=out0)]
+    osz = LONG[bits][1] if N == LONG[bits][0] else 512
+    out0 = T.var('out0', 8 * osz)
+    args = [Buf('msg', L, init=msg, writable=False), Sc('len', 64, L), Buf('out', osz, init=out0)]
     t0 = time.time()
     res, ex = entry.run(mod, fname, args)
     run.exec_s += time.time() - t0
     run.note_functions(execu.demangle_hint(f) for f in ex.funcs_run)
     exp = spec.skein(msg, L, N, nw)
-    osz = 512
     full = T.concat([exp, T.extract(out0, 8 * N, 8 * (osz - N))])
     for r in res:
         name = 'skein%d-%d/digest/%s/L=%d' % (bits, 8 * N, config, L)
@@ -122,6 +124,8 @@ def body(run, a):
         for L in (0, 1, bits // 8 + 1):
             tasks.append(('devchk-std', bits, OUTS[bits][0], L))
             tasks.append(('release-nounroll', bits, OUTS[bits][1], L))
+    for bits in ((256,) if run.tier == 'quick' else NW):
+        tasks.append(('release-std', bits, LONG[bits][0], 1))
     stasks = []
     for bits in NW:
         bs = bits // 8
@@ -150,6 +154,7 @@ def body(run, a):
     run.canary('reference without the FINAL flag is distinguished', check.concrete_differs([(got, bad)], [], [('msg', 8 * L)], run.rng) is not None)
     run.bounds = {'message': 'symbolic bytes', 'output sizes N (bytes)': {b: (OUTS[b][:4] if run.tier == 'quick' else OUTS[b]) for b in NW},
                   'lengths': {b: lens_for(b, run.tier) for b in NW}, 'step from arbitrary state': '%d cases: chaining value and byte counter symbolic, buffer fill / appended length enumerated' % len(stasks),
+                  'long outputs (more than 256 output blocks)': {b: LONG[b][0] for b in ((256,) if run.tier == 'quick' else NW)},
                   'outside': 'other output sizes N (the code is uniform in N; stated, not proved); byte counters beyond 2^64'}
     run.assumptions += ['reference typed from the Skein 1.3 specification (UBI, configuration block, output transform), validated against NIST-submission vectors',
                         'LLVM back end and CPU trusted; panic=abort']
